@@ -92,7 +92,7 @@ CHECKS = {
              "serializer (escaping, char references, indent). Theorems for every history and every string: the rendered "
              "file is a well-formed element of the XML grammar with only XML Chars (declarative grammar), each event is "
              "filed once under its own suite/class/name, suite attributes equal element counts. Tied to the real wrapper "
-             "char-for-char; every real file is parsed with expat and ElementTree.",
+             "char-for-char; every real file is parsed with expat and ElementTree.  Report file names (Model/XmlFile: % and the path separator written %XX) name a file inside the reports directory and are injective - no report overwrites another (C17F_no_separator, C17F_decode, C17F_injective, C17F_naive_collides), compared with the files on disk.",
         note="grammar subset = what the serializer emits; the name parser of DocTestCase is modelled (C17_doctest_name), those of DocFileCase and manuel are not; file names "
              "derive from class names (identifiers)",
         technique="Lean 4 theorems on serializer model + char-for-char correspondence + strict XML parsers as oracle",
